@@ -41,9 +41,12 @@ func verifC05Key(t *rapid.T) ([]byte, string) {
 	return k, cls
 }
 
+// verifDirtyInt plants a register pattern (set by zz_verif_regs_hook_int_test.go when the driver generated the helper).
+var verifDirtyInt func(pat []byte)
+
 func TestVerif_C05_Kernels(t *testing.T) {
 	rec := stats.Get("C05", "kernels")
-	rec.Rule("rapid: key (classes as above); 256 bytes of source with 16 DISTINCT blocks (uniform, or each block = a different extreme pattern); for each kernel {asm x1,x2,x4,x8,x16, portable x1, portable x2} and direction {enc,dec}: every lane of the output equals sm4ref on that lane's block; dst==src aliasing drawn; both key schedules (expandKeyAsm, expandKey) equal the reference round keys and dec[i]=enc[31-i]; dispatch: NewCipher with candoAsm forced on/off and newCipherGeneric give the same bytes. Non-trivial: always (wide kernels, decrypt direction); distinct by (key, source).")
+	rec.Rule("rapid: key (classes as above); 256 bytes of source with 16 DISTINCT blocks (uniform, or each block = a different extreme pattern); for each kernel {asm x1,x2,x4,x8,x16, portable x1, portable x2} and direction {enc,dec}: every lane of the output equals sm4ref on that lane's block; dst==src aliasing drawn; both key schedules (expandKeyAsm, expandKey) equal the reference round keys and dec[i]=enc[31-i]; a register pattern (zero / all ones / data) is planted in Z0..Z31 and K1..K7 right before each assembly call; dispatch: NewCipher with candoAsm forced on/off and newCipherGeneric give the same bytes. Non-trivial: always (wide kernels, decrypt direction); distinct by (key, source).")
 	t.Cleanup(stats.FlushAll)
 	if !candoAsm {
 		rec.Skipped("CPU lacks GFNI/AVX512/VPCLMULQDQ: accelerated kernels cannot be executed here")
@@ -77,7 +80,23 @@ func TestVerif_C05_Kernels(t *testing.T) {
 		var encG, decG, encA, decA [32]uint32
 		expandKey(key, &encG, &decG)
 		scheds := map[string][2]*[32]uint32{"portable": {&encG, &decG}}
+		// register pattern planted right before each assembly call (see prep_sm4_regstate): nil = leave the registers alone
+		var regs []byte
+		switch gen.Pick(t, "regs", "as-is", "zero", "ones", "random") {
+		case "zero":
+			regs = make([]byte, 128)
+		case "ones":
+			regs = bytes.Repeat([]byte{0xff}, 128)
+		case "random":
+			regs = append([]byte(nil), src[:128]...)
+		}
+		plant := func() {
+			if verifDirtyInt != nil && regs != nil {
+				verifDirtyInt(regs)
+			}
+		}
 		if candoAsm {
+			plant()
 			expandKeyAsm(&key[0], &encA[0], &decA[0])
 			scheds["asm"] = [2]*[32]uint32{&encA, &decA}
 		}
@@ -122,6 +141,7 @@ func TestVerif_C05_Kernels(t *testing.T) {
 				if inplace {
 					dst = in
 				}
+				plant()
 				k.f(&rkc, dst, in)
 				want := wantE[base : base+n]
 				dn := "enc"
